@@ -124,7 +124,7 @@ class DispatchingRequestHandler(BaseHTTPRequestHandler):
             # close this connection
             self.close_connection = True  # pylint: disable=attribute-defined-outside-init
             response_xml_string = 'received a POST request, but have no dispatcher'
-            self.send_response(404, response_xml_string)  # not found
+            self._send_plain_response(404, response_xml_string)  # not found
             return
 
         try:
